@@ -96,6 +96,18 @@ exp(N, CLI, "harmless", "negated test, branches exchanged", PVT1,
 exp(N, CLI, "harmless", "keyword argument, result bound to a local", PVT2,
     "    valid_tags = [tag for tag in all_tags if version_parser.is_valid(tag, raw_pattern=version_pattern)]\n    return valid_tags")
 
+# rewrite kinds of the independent refactoring patches (harmless2.diff): module chosen by if/else, explicit loop
+LOOP_FORM = ("    if is_new_pattern:\n        version_parser = v2version\n    else:\n        version_parser = v1version\n\n"
+             "    version_tags = []\n    for tag in all_tags:\n        if version_parser.is_valid(tag, version_pattern):\n"
+             "            version_tags.append(tag)\n    return version_tags")
+exp(N, CLI, "harmless", "module chosen by if/else, explicit accumulation loop instead of the comprehension",
+    PVT1 + PVT2, LOOP_FORM)
+exp(N, CLI, "break", "explicit loop form with the filter negated",
+    PVT1 + PVT2, LOOP_FORM.replace("if version_parser.is_valid(", "if not version_parser.is_valid("))
+exp(N, CLI, "break", "explicit loop form, modules exchanged in the if/else",
+    PVT1 + PVT2, LOOP_FORM.replace("version_parser = v2version", "version_parser = v1version", 1).replace(
+        "    else:\n        version_parser = v1version", "    else:\n        version_parser = v2version"))
+
 # ---- get_latest_vcs_version_tag ----------------------------------------------------------------------
 N = "getLatestVcsVersionTag"
 SORT = "        version_tags.sort(key=version.parse_version, reverse=True)\n"
@@ -256,6 +268,13 @@ exp(N, CLI, "harmless", "negated test with exchanged branches",
     "    if has_v1_part:\n" + V1CALL + "    else:\n" + V2CALL,
     "    if not has_v1_part:\n" + V2CALL + "    else:\n" + V1CALL)
 
+ANY = "    has_v1_part = any(\"{\" + part + \"}\" in raw_pattern for part in v1_parts)"
+FLAG = ("    has_v1_part = False\n    for part in v1_parts:\n        if \"{\" + part + \"}\" in raw_pattern:\n"
+        "            has_v1_part = True\n            break")
+exp(N, CLI, "harmless", "flag + `for … if …: flag = True; break` instead of `any(…)` (harmless2.diff)", ANY, FLAG)
+exp(N, CLI, "break", "flag loop that never sets the flag", ANY, FLAG.replace("has_v1_part = True", "has_v1_part = False"))
+exp(N, CLI, "break", "flag loop with the test negated", ANY, FLAG.replace("        if \"{\"", "        if not \"{\""))
+
 # ---- _cmpkey ----------------------------------------------------------------------------------------------------------------
 N = "cmpkey"
 F65 = "setuptools_v65_version.py"
@@ -318,6 +337,25 @@ exp(N, CFGF, "harmless", "section test inlined into the `if`",
     "            if (b\"bumpver]\" in data or b\"pycalver]\" in data) and b\"current_version\" in data:")
 exp(N, CFGF, "harmless", "fallback bound to a local first",
     "    return path / \"bumpver.toml\"", "    fallback = path / \"bumpver.toml\"\n    return fallback")
+
+
+FIRST_LOOP = ("        if config_filepath.exists():\n            with config_filepath.open(mode=\"rb\") as fobj:\n                data = fobj.read()\n\n"
+              + SEC + "\n            if has_bumpver_section:\n                return config_filepath\n")
+CONT_LOOP = ("        if not config_filepath.exists():\n            continue\n\n        with config_filepath.open(mode=\"rb\") as fobj:\n"
+             "            raw_bytes = fobj.read()\n\n        has_section_header = b\"bumpver]\" in raw_bytes or b\"pycalver]\" in raw_bytes\n"
+             "        if has_section_header and b\"current_version\" in raw_bytes:\n            return config_filepath\n")
+exp(N, CFGF, "harmless", "`continue` for missing candidates, section test split into two steps (harmless3.diff)", FIRST_LOOP, CONT_LOOP)
+exp(N, CFGF, "break", "`continue` form that skips the EXISTING candidates", FIRST_LOOP,
+    CONT_LOOP.replace("if not config_filepath.exists():", "if config_filepath.exists():"))
+
+# ---- _is_valid_version, rewrite kinds of harmless2.diff ---------------------------------------------------------------
+N = "isValidVersion"
+exp(N, CLI, "harmless", "`not (\"{\" in p or \"}\" in p)`, parser branches exchanged under `if not`",
+    "    is_new_pattern = \"{\" not in raw_pattern and \"}\" not in raw_pattern\n\n    try:\n        if is_new_pattern:\n            v2version.parse_version_info(new_version, raw_pattern)\n        else:\n            v1version.parse_version_info(new_version, raw_pattern)\n",
+    "    is_new_pattern = not (\"{\" in raw_pattern or \"}\" in raw_pattern)\n\n    try:\n        if not is_new_pattern:\n            v1version.parse_version_info(new_version, raw_pattern)\n        else:\n            v2version.parse_version_info(new_version, raw_pattern)\n")
+exp(N, CLI, "break", "`not (\"{\" in p and \"}\" in p)`",
+    "    is_new_pattern = \"{\" not in raw_pattern and \"}\" not in raw_pattern\n\n    try:",
+    "    is_new_pattern = not (\"{\" in raw_pattern and \"}\" in raw_pattern)\n\n    try:")
 
 
 def run(cmd, **kw):
